@@ -1,6 +1,8 @@
 """C15: the declarative parts of the charge-handling models -> Gallina (fail closed).
 
   inter_pixel_capacitance.py  ipc_kernel      -> src_ipc_guard, src_ipc_weights (guards + the 3x3 literal)
+  inter_pixel_capacitance.py  compute_ipc_convolution -> src_ipc_conv_whole_frame, src_ipc_conv_mean_fill (one
+                                                 convolve_fft of the whole frame with that kernel, boundary fill = mean)
   collection.py               simple_collection -> src_collect (the single statement `pixel op= charge`)
   full_well.py                apply_simple_full_well_capacity -> src_full_well (`array[array > fwc] = fwc`)
   photoelectrons.py           apply_qe        -> src_qe_off (the expression of the non-sampling branch)
@@ -19,6 +21,18 @@ from fractions import Fraction
 from pathlib import Path
 
 from .common import HEADER, body_no_doc, fail, find_func, parse
+from .c15_norm import normalised
+
+# functions the extraction reads by name or whose calls it looks for: never inlined into their callers
+ANCHORS = {"ipc_kernel", "compute_ipc_convolution", "simple_ipc", "simple_collection", "apply_simple_full_well_capacity",
+           "simple_full_well", "apply_qe", "simple_conversion", "conversion_with_qe_map", "integrate_photon",
+           "set_random_seed", "load_cropped_and_aligned_image", "cdm", "run_cdm_parallel", "run_cdm_serial"}
+
+
+def nfunc(repo: Path, rel: str, name: str) -> ast.FunctionDef:
+    """the function in canonical shape (translator/c15_norm.py: helpers inlined, aliases substituted, match -> if,
+    conditional expressions -> if/else, guard-clause form, module constants resolved, logging / annotations dropped)"""
+    return normalised(repo, rel, name, ANCHORS)
 
 PRE = ("From Coq Require Import QArith List Bool.\nFrom PyxelV Require Import Model.Conservation.\n"
        "Import ListNotations.\nOpen Scope Q_scope.\n")
@@ -52,52 +66,85 @@ def expr(node: ast.AST, names: dict) -> str:
     fail(node, "expression shape not accepted (only + - * of names and numbers)")
 
 
-def guard(test: ast.AST, names: dict) -> str:
-    """`not <comparison chain>` with < and <= -> bool term that is true when the code does NOT raise."""
-    if not (isinstance(test, ast.UnaryOp) and isinstance(test.op, ast.Not) and isinstance(test.operand, ast.Compare)):
-        fail(test, "guard must be `if not <comparison>: raise`")
-    cmp_ = test.operand
-    terms = []
-    left = cmp_.left
+def cmp_atoms(cmp_: ast.Compare, names: dict) -> list:
+    """comparison chain over < <= > >= -> atoms (Qltb / Qle_bool, `a > b` written as `b < a`: the same for NaN too)"""
+    atoms, left = [], cmp_.left
     for op, right in zip(cmp_.ops, cmp_.comparators):
         l, r = expr(left, names), expr(right, names)
         if isinstance(op, ast.Lt):
-            terms.append(f"Qltb {l} {r}")
+            atoms.append(f"Qltb {l} {r}")
         elif isinstance(op, ast.LtE):
-            terms.append(f"Qle_bool {l} {r}")
+            atoms.append(f"Qle_bool {l} {r}")
+        elif isinstance(op, ast.Gt):
+            atoms.append(f"Qltb {r} {l}")
+        elif isinstance(op, ast.GtE):
+            atoms.append(f"Qle_bool {r} {l}")
         else:
-            fail(cmp_, "only < and <= accepted in a guard")
+            fail(cmp_, "only < <= > >= accepted in a guard")
         left = right
-    return " && ".join(terms)
+    return atoms
+
+
+def conj_atoms(node: ast.AST, names: dict) -> list:
+    """`a < x <= b`, `a < x and x <= b`, nested `and`: the atoms whose conjunction is the value of the expression"""
+    if isinstance(node, ast.Compare):
+        return cmp_atoms(node, names)
+    if isinstance(node, ast.BoolOp) and isinstance(node.op, ast.And):
+        return [a for v in node.values for a in conj_atoms(v, names)]
+    fail(node, "guard operand must be a comparison chain or an `and` of comparison chains")
+
+
+def guard_atoms(test: ast.AST, names: dict) -> list:
+    """raise-test `not E` or `not E1 or not E2 ...` (exactly `not (E1 and E2)`, NaN and evaluation order included) ->
+    atoms whose conjunction is true when the code does NOT raise.  A De-Morgan'ed test over the negated comparisons
+    (`x <= a or x > b`) is NOT accepted: it differs for NaN."""
+    if isinstance(test, ast.UnaryOp) and isinstance(test.op, ast.Not):
+        return conj_atoms(test.operand, names)
+    if isinstance(test, ast.BoolOp) and isinstance(test.op, ast.Or):
+        return [a for v in test.values for a in guard_atoms(v, names)]
+    fail(test, "guard must be `if not <comparison chain / and of chains>: raise`")
+
+
+def guard(test: ast.AST, names: dict) -> str:
+    """bool term that is true when the code does NOT raise"""
+    return " && ".join(guard_atoms(test, names))
+
+
+def _kernel_literal(v: ast.AST, names: dict):
+    if not (isinstance(v, ast.Call) and ast.unparse(v.func) in ("np.array", "np.asarray", "numpy.array") and len(v.args) == 1
+            and [k.arg for k in v.keywords] == ["dtype"]
+            and ast.unparse(v.keywords[0].value) in ("float", "np.float64", "'float'", "'float64'")):
+        fail(v, "kernel must be np.array(<3x3 literal>, dtype=float)")
+    lit = v.args[0]
+    if not (isinstance(lit, (ast.List, ast.Tuple)) and len(lit.elts) == 3
+            and all(isinstance(r, (ast.List, ast.Tuple)) and len(r.elts) == 3 for r in lit.elts)):
+        fail(lit, "kernel literal must be 3x3")
+    return [[expr(e, names) for e in r.elts] for r in lit.elts]
 
 
 def tr_ipc(repo: Path) -> str:
-    tree = parse(repo, "pyxel/models/charge_collection/inter_pixel_capacitance.py")
-    fn = find_func(tree, "ipc_kernel")
+    fn = nfunc(repo, "pyxel/models/charge_collection/inter_pixel_capacitance.py", "ipc_kernel")
     args = [a.arg for a in fn.args.args]
     if args != ["coupling", "diagonal_coupling", "anisotropic_coupling"]:
         fail(fn, "ipc_kernel signature")
     names = {"coupling": "c", "diagonal_coupling": "d", "anisotropic_coupling": "a"}
-    guards, kernel_rows, ret = [], None, False
-    for st in body_no_doc(fn):
+    guards, kernel_rows, kvar, ret = [], None, None, False
+    for st in fn.body:
+        if ret:
+            fail(st, "statement after the return of ipc_kernel")
         if isinstance(st, ast.If):
-            if st.orelse or len(st.body) != 1 or not isinstance(st.body[0], ast.Raise):
-                fail(st, "guard must be `if not ...: raise ...`")
-            guards.append(guard(st.test, names))
+            if kernel_rows is not None:
+                fail(st, "the guards of ipc_kernel must precede the kernel")
+            guards.append(guard(_raise_guard(st), names))
         elif isinstance(st, ast.Assign):
-            if kernel_rows is not None or len(st.targets) != 1 or ast.unparse(st.targets[0]) != "kernel":
-                fail(st, "expected the single assignment `kernel = np.array([...], dtype=float)`")
-            v = st.value
-            if not (isinstance(v, ast.Call) and ast.unparse(v.func) == "np.array" and len(v.args) == 1
-                    and [k.arg for k in v.keywords] == ["dtype"] and ast.unparse(v.keywords[0].value) == "float"):
-                fail(v, "kernel must be np.array(<3x3 literal>, dtype=float)")
-            lit = v.args[0]
-            if not (isinstance(lit, ast.List) and len(lit.elts) == 3
-                    and all(isinstance(r, ast.List) and len(r.elts) == 3 for r in lit.elts)):
-                fail(lit, "kernel literal must be 3x3")
-            kernel_rows = [[expr(e, names) for e in r.elts] for r in lit.elts]
+            if kernel_rows is not None or len(st.targets) != 1 or not isinstance(st.targets[0], ast.Name):
+                fail(st, "expected the single assignment `<name> = np.array([...], dtype=float)`")
+            kvar = st.targets[0].id
+            kernel_rows = _kernel_literal(st.value, names)
         elif isinstance(st, ast.Return):
-            if ast.unparse(st.value) != "kernel":
+            if kernel_rows is None:
+                kernel_rows = _kernel_literal(st.value, names)          # `return np.array([...], dtype=float)`
+            elif not (isinstance(st.value, ast.Name) and st.value.id == kvar):
                 fail(st, "ipc_kernel must return the literal kernel")
             ret = True
         else:
@@ -110,10 +157,83 @@ def tr_ipc(repo: Path) -> str:
             f"Definition src_ipc_weights (c d a : Q) : kernel := {{| {fields} |}}.\n")
 
 
+def tr_ipc_conv(repo: Path) -> str:
+    """compute_ipc_convolution: ONE convolve_fft call over the WHOLE input frame (not in a loop / branch, not on a slice)
+    with the kernel of ipc_kernel(<the three couplings>), boundary='fill', fill_value = np.mean(<input>), whose result is
+    what the function returns."""
+    fn = nfunc(repo, "pyxel/models/charge_collection/inter_pixel_capacitance.py", "compute_ipc_convolution")
+    params = [a.arg for a in fn.args.args]
+    if params[1:] != ["coupling", "diagonal_coupling", "anisotropic_coupling"] or len(params) != 4:
+        fail(fn, "compute_ipc_convolution signature")
+    frame = params[0]
+    body = fn.body
+    bound = {}                                            # local -> expression (single top-level assignments)
+    for st in body:
+        for n in ast.walk(st):
+            if isinstance(n, (ast.For, ast.While, ast.AsyncFor, ast.ListComp, ast.GeneratorExp, ast.SetComp, ast.DictComp)):
+                fail(n, "compute_ipc_convolution: loop / comprehension (the frame must be convolved in one piece)")
+            if isinstance(n, ast.Name) and not isinstance(n.ctx, ast.Load) and n.id == frame:
+                fail(n, "compute_ipc_convolution rebinds its input")
+            if isinstance(n, (ast.Subscript, ast.Attribute)) and not isinstance(n.ctx, ast.Load):
+                fail(n, "compute_ipc_convolution stores into an object")
+            if isinstance(n, ast.AugAssign):
+                fail(n, "compute_ipc_convolution: augmented assignment")
+        if isinstance(st, ast.Assign) and len(st.targets) == 1 and isinstance(st.targets[0], ast.Name):
+            if st.targets[0].id in bound:
+                fail(st, "compute_ipc_convolution: a local is bound twice")
+            bound[st.targets[0].id] = st.value
+        elif not isinstance(st, ast.Return):
+            fail(st, "statement shape not accepted in compute_ipc_convolution (assignments and the return only)")
+
+    def val(node):
+        seen = set()
+        while True:
+            if isinstance(node, ast.Name) and node.id in bound and node.id not in seen:
+                seen.add(node.id)
+                node = bound[node.id]
+            elif (isinstance(node, ast.Call) and ast.unparse(node.func) in ("float", "np.float64") and len(node.args) == 1
+                  and not node.keywords):
+                node = node.args[0]                      # float(np.mean(...)): the same number
+            else:
+                return node
+
+    if not body or not isinstance(body[-1], ast.Return) or body[-1].value is None:
+        fail(fn, "compute_ipc_convolution must end in `return <convolved frame>`")
+    call = val(body[-1].value)
+    if not (isinstance(call, ast.Call) and ast.unparse(call.func) in ("convolve_fft", "convolve")):
+        fail(body[-1], "compute_ipc_convolution must return the result of convolve_fft")
+    ncalls = sum(1 for st in body for n in ast.walk(st)
+                 if isinstance(n, ast.Call) and ast.unparse(n.func) in ("convolve_fft", "convolve"))
+    if ncalls != 1:
+        fail(fn, "compute_ipc_convolution must convolve once")
+    if any(isinstance(a, ast.Starred) for a in call.args) or any(k.arg is None for k in call.keywords) or len(call.args) > 2:
+        fail(call, "convolve_fft arguments")
+    kw = {**dict(zip(("array", "kernel"), call.args)), **{k.arg: k.value for k in call.keywords}}
+    if set(kw) != {"array", "kernel", "boundary", "fill_value"}:
+        fail(call, "convolve_fft must receive exactly array, kernel, boundary, fill_value")
+    arr = val(kw["array"])
+    if not (isinstance(arr, ast.Name) and arr.id == frame):
+        fail(call, "convolve_fft must receive the whole input frame")
+    kern = val(kw["kernel"])
+    want = {"coupling": "coupling", "diagonal_coupling": "diagonal_coupling", "anisotropic_coupling": "anisotropic_coupling"}
+    if not (isinstance(kern, ast.Call) and ast.unparse(kern.func) == "ipc_kernel" and not kern.args
+            and {k.arg: ast.unparse(k.value) for k in kern.keywords} == want):
+        fail(call, "the kernel must be ipc_kernel(coupling, diagonal_coupling, anisotropic_coupling)")
+    bnd = val(kw["boundary"])
+    fill = val(kw["fill_value"])
+    fill_ok = (isinstance(bnd, ast.Constant) and bnd.value == "fill" and isinstance(fill, ast.Call)
+               and ((ast.unparse(fill.func) in ("np.mean", "numpy.mean") and len(fill.args) == 1 and not fill.keywords
+                     and isinstance(val(fill.args[0]), ast.Name) and val(fill.args[0]).id == frame)
+                    or (isinstance(fill.func, ast.Attribute) and fill.func.attr == "mean" and not fill.args
+                        and not fill.keywords and isinstance(val(fill.func.value), ast.Name)
+                        and val(fill.func.value).id == frame)))
+    return ("Definition src_ipc_conv_whole_frame : bool := true.\n"
+            f"Definition src_ipc_conv_mean_fill : bool := {'true' if fill_ok else 'false'}.\n")
+
+
 def tr_collect(repo: Path) -> str:
-    tree = parse(repo, "pyxel/models/charge_collection/collection.py")
-    fn = find_func(tree, "simple_collection")
-    body = body_no_doc(fn)
+    fn = nfunc(repo, "pyxel/models/charge_collection/collection.py", "simple_collection")
+    body = fn.body
     if len(body) != 1:
         fail(fn, "simple_collection must be a single statement")
     st = body[0]
@@ -138,11 +258,10 @@ def tr_collect(repo: Path) -> str:
 
 
 def tr_full_well(repo: Path) -> str:
-    tree = parse(repo, "pyxel/models/charge_collection/full_well.py")
-    fn = find_func(tree, "apply_simple_full_well_capacity")
+    fn = nfunc(repo, "pyxel/models/charge_collection/full_well.py", "apply_simple_full_well_capacity")
     if [a.arg for a in fn.args.args] != ["array", "fwc"]:
         fail(fn, "apply_simple_full_well_capacity signature")
-    body = body_no_doc(fn)
+    body = fn.body
     if len(body) != 2 or not isinstance(body[1], ast.Return) or ast.unparse(body[1].value) != "array":
         fail(fn, "body must be `array[<mask>] = <value>; return array`")
     st = body[0]
@@ -170,26 +289,30 @@ def tr_full_well(repo: Path) -> str:
 
 
 def tr_qe(repo: Path) -> str:
-    tree = parse(repo, "pyxel/models/charge_generation/photoelectrons.py")
-    fn = find_func(tree, "apply_qe")
+    fn = nfunc(repo, "pyxel/models/charge_generation/photoelectrons.py", "apply_qe")
     if [a.arg for a in fn.args.args] != ["array", "qe", "binomial_sampling"]:
         fail(fn, "apply_qe signature")
-    body = body_no_doc(fn)
-    if not (len(body) == 2 and isinstance(body[0], ast.If) and ast.unparse(body[0].test) == "binomial_sampling"
-            and isinstance(body[1], ast.Return) and ast.unparse(body[1].value) == "output"):
-        fail(fn, "apply_qe must be `if binomial_sampling: ... else: ...; return output`")
-    iff = body[0]
-    if not (len(iff.body) == 1 and len(iff.orelse) == 1 and isinstance(iff.orelse[0], ast.Assign)
-            and ast.unparse(iff.orelse[0].targets[0]) == "output" and isinstance(iff.body[0], ast.Assign)
-            and ast.unparse(iff.body[0].targets[0]) == "output"):
-        fail(iff, "both branches must assign `output`")
-    e = expr(iff.orelse[0].value, {"array": "p", "qe": "q"})
+    body = fn.body
+    # canonical shape: `if [not] binomial_sampling: return <one branch>` followed by `return <the other branch>`
+    if not (len(body) == 2 and isinstance(body[0], ast.If) and not body[0].orelse and len(body[0].body) == 1
+            and isinstance(body[0].body[0], ast.Return) and isinstance(body[1], ast.Return)
+            and body[0].body[0].value is not None and body[1].value is not None):
+        fail(fn, "apply_qe must return the sampled value if binomial_sampling and the product otherwise")
+    test = body[0].test
+    if isinstance(test, ast.Name) and test.id == "binomial_sampling":
+        s, off = body[0].body[0].value, body[1].value
+    elif (isinstance(test, ast.UnaryOp) and isinstance(test.op, ast.Not) and isinstance(test.operand, ast.Name)
+          and test.operand.id == "binomial_sampling"):
+        off, s = body[0].body[0].value, body[1].value
+    else:
+        fail(test, "apply_qe must branch on `binomial_sampling`")
+    e = expr(off, {"array": "p", "qe": "q"})
     # the sampling branch: np.random.binomial(n=array.astype(int), p=qe).astype(float)
-    s = iff.body[0].value
     ok = (isinstance(s, ast.Call) and isinstance(s.func, ast.Attribute) and s.func.attr == "astype"
           and [ast.unparse(a) for a in s.args] == ["float"] and isinstance(s.func.value, ast.Call)
-          and ast.unparse(s.func.value.func) == "np.random.binomial" and not s.func.value.args
-          and {k.arg: ast.unparse(k.value) for k in s.func.value.keywords} == {"n": "array.astype(int)", "p": "qe"})
+          and ast.unparse(s.func.value.func) == "np.random.binomial" and len(s.func.value.args) <= 2
+          and {**dict(zip(("n", "p"), (ast.unparse(a) for a in s.func.value.args))),
+               **{k.arg: ast.unparse(k.value) for k in s.func.value.keywords}} == {"n": "array.astype(int)", "p": "qe"})
     if not ok:
         fail(s, "sampling branch must be np.random.binomial(n=array.astype(int), p=qe).astype(float)")
     return f"Definition src_qe_off (q p : Q) : Q := {e}.\n"
@@ -310,11 +433,10 @@ def _pos_guard(test: ast.AST, names: dict) -> str:
 
 
 def tr_fw_sources(repo: Path) -> str:
-    tree = parse(repo, "pyxel/models/charge_collection/full_well.py")
-    fn = find_func(tree, "simple_full_well")
+    fn = nfunc(repo, "pyxel/models/charge_collection/full_well.py", "simple_full_well")
     if [a.arg for a in fn.args.args] != ["detector", "fwc"]:
         fail(fn, "simple_full_well signature")
-    body = body_no_doc(fn)
+    body = fn.body
     if len(body) < 3:
         fail(fn, "simple_full_well: expected selection, guard, application")
     var, sel = select_stmt(body[0], "fwc", "full_well_capacity")
@@ -324,27 +446,32 @@ def tr_fw_sources(repo: Path) -> str:
         guards.append(_pos_guard(_raise_guard(body[k]), {var: "c"}))
         k += 1
     rest = body[k:]
-    call_s = f"apply_simple_full_well_capacity(array=detector.pixel.array, fwc={var})"
+    want = {"array": "detector.pixel.array", "fwc": var}
+
+    def is_apply(v):
+        return (isinstance(v, ast.Call) and ast.unparse(v.func) == "apply_simple_full_well_capacity" and not v.args
+                and {kw.arg: ast.unparse(kw.value) for kw in v.keywords} == want)
+
     ok = False
-    if len(rest) == 1 and isinstance(rest[0], ast.Assign):
-        ok = (ast.unparse(rest[0].targets[0]) == "detector.pixel.array" and ast.unparse(rest[0].value) == call_s)
-    elif len(rest) == 2 and all(isinstance(r, ast.Assign) for r in rest):
+    if len(rest) == 1 and isinstance(rest[0], ast.Assign) and len(rest[0].targets) == 1:
+        ok = ast.unparse(rest[0].targets[0]) == "detector.pixel.array" and is_apply(rest[0].value)
+    elif len(rest) == 2 and all(isinstance(r, ast.Assign) and len(r.targets) == 1 for r in rest):
         tmp = ast.unparse(rest[0].targets[0])
-        ok = (isinstance(rest[0].targets[0], ast.Name) and ast.unparse(rest[0].value) == call_s
+        ok = (isinstance(rest[0].targets[0], ast.Name) and is_apply(rest[0].value) and tmp != var
               and ast.unparse(rest[1].targets[0]) == "detector.pixel.array" and ast.unparse(rest[1].value) == tmp)
     if not ok:
-        fail(rest[0] if rest else fn, f"after the guards expected detector.pixel.array = {call_s}")
+        fail(rest[0] if rest else fn, "after the guards expected detector.pixel.array = "
+             f"apply_simple_full_well_capacity(array=detector.pixel.array, fwc={var})")
     g = " || ".join(f"({x})" for x in guards) if guards else "false"
     return (f"Definition src_fw_select (arg char : option Q) : option Q := {sel}.\n"
             f"Definition src_fw_raises (c : Q) : bool := {g}.\n")
 
 
 def tr_qe_sources(repo: Path) -> str:
-    tree = parse(repo, "pyxel/models/charge_generation/photoelectrons.py")
-    fn = find_func(tree, "simple_conversion")
+    fn = nfunc(repo, "pyxel/models/charge_generation/photoelectrons.py", "simple_conversion")
     if [a.arg for a in fn.args.args] != ["detector", "quantum_efficiency", "seed", "binomial_sampling"]:
         fail(fn, "simple_conversion signature")
-    body = body_no_doc(fn)
+    body = fn.body
     if len(body) < 3:
         fail(fn, "simple_conversion: expected selection, range guard, conversion")
     var, sel = select_stmt(body[0], "quantum_efficiency", "quantum_efficiency")
@@ -368,26 +495,41 @@ def tr_qe_sources(repo: Path) -> str:
 
 
 def tr_qe_map(repo: Path) -> str:
-    tree = parse(repo, "pyxel/models/charge_generation/photoelectrons.py")
-    fn = find_func(tree, "conversion_with_qe_map")
-    body = body_no_doc(fn)
-    # `if not np.all(<elementwise test on qe>): raise`, elementwise test = conjunction (&) of comparisons of qe with numbers
+    fn = nfunc(repo, "pyxel/models/charge_generation/photoelectrons.py", "conversion_with_qe_map")
+    body = fn.body
+    # `if not np.all(<elementwise test on qe>): raise`, elementwise test = conjunction (&) of comparisons of qe with numbers;
+    # also `not (np.all(t1) and np.all(t2))`, `not np.all(t1) or not np.all(t2)`, `<test>.all()`
     gs = [st for st in body if isinstance(st, ast.If) and "qe" in {n.id for n in ast.walk(st.test) if isinstance(n, ast.Name)}]
     if len(gs) != 1:
         fail(fn, "conversion_with_qe_map: expected one range check of the map")
     test = _raise_guard(gs[0])
-    if not (isinstance(test, ast.UnaryOp) and isinstance(test.op, ast.Not) and isinstance(test.operand, ast.Call)
-            and ast.unparse(test.operand.func) == "np.all" and len(test.operand.args) == 1 and not test.operand.keywords):
-        fail(test, "range check must be `if not np.all(<test>): raise`")
 
     def elem(node):
         if isinstance(node, ast.BinOp) and isinstance(node.op, ast.BitAnd):
-            return f"{elem(node.left)} && {elem(node.right)}"
+            return elem(node.left) + elem(node.right)
         if isinstance(node, ast.Compare):
-            return f"({_pos_guard(node, {'qe': 'q'})})"
+            return [f"({_pos_guard(node, {'qe': 'q'})})"]
         fail(node, "elementwise range test shape not accepted")
 
-    rng = elem(test.operand.args[0])
+    def all_of(node):
+        """expression that is true when every pixel passes -> atoms"""
+        if isinstance(node, ast.Call) and not node.keywords:
+            if ast.unparse(node.func) in ("np.all", "numpy.all") and len(node.args) == 1:
+                return elem(node.args[0])
+            if isinstance(node.func, ast.Attribute) and node.func.attr == "all" and not node.args:
+                return elem(node.func.value)
+        if isinstance(node, ast.BoolOp) and isinstance(node.op, ast.And):
+            return [a for v in node.values for a in all_of(v)]
+        fail(node, "range check must be `if not np.all(<test>): raise`")
+
+    def refused(node):
+        if isinstance(node, ast.UnaryOp) and isinstance(node.op, ast.Not):
+            return all_of(node.operand)
+        if isinstance(node, ast.BoolOp) and isinstance(node.op, ast.Or):
+            return [a for v in node.values for a in refused(v)]
+        fail(node, "range check must be `if not np.all(<test>): raise`")
+
+    rng = " && ".join(refused(test))
     calls = [n for st in body for n in ast.walk(st) if isinstance(n, ast.Call) and ast.unparse(n.func) == "apply_qe"]
     if len(calls) != 1 or calls[0].args:
         fail(fn, "conversion_with_qe_map must call apply_qe once, with keywords")
@@ -406,9 +548,8 @@ def tr_qe_map(repo: Path) -> str:
 
 
 def tr_cdm_guard(repo: Path) -> str:
-    tree = parse(repo, "pyxel/models/charge_transfer/cdm.py")
-    fn = find_func(tree, "cdm")
-    body = body_no_doc(fn)
+    fn = nfunc(repo, "pyxel/models/charge_transfer/cdm.py", "cdm")
+    body = fn.body
     sel = [st for st in body if isinstance(st, (ast.If, ast.Assign, ast.AnnAssign, ast.Try))
            and any(isinstance(n, ast.Name) and n.id == "full_well_capacity" for n in ast.walk(st))
            and not any(isinstance(n, ast.Call) and ast.unparse(n.func).startswith("run_cdm") for n in ast.walk(st))]
@@ -418,14 +559,14 @@ def tr_cdm_guard(repo: Path) -> str:
     names = {"max_electron_volume": "vg", "beta": "beta", var: "fwc", "transfer_period": "t"}
     guards, seen = [], set()
     for st in body:
-        if not (isinstance(st, ast.If) and isinstance(st.test, ast.UnaryOp) and isinstance(st.test.op, ast.Not)
-                and isinstance(st.test.operand, ast.Compare)):
+        if not isinstance(st, ast.If) or st in sel:
             continue
         used = {n.id for n in ast.walk(st.test) if isinstance(n, ast.Name)}
-        if not used or not used <= set(names):
-            continue                                  # isinstance / len checks: not range checks
-        _raise_guard(st)
-        guards.append(guard(st.test, names))
+        if not used & set(names):
+            continue                                  # isinstance / len / direction checks: not range checks
+        if not used <= set(names):
+            fail(st, "a test of cdm mixes a range-checked parameter with something else")
+        guards.append(guard(_raise_guard(st), names))
         seen |= used
     for st in body:                                   # the checked values are the ones handed to the numba functions
         for n in ast.walk(st):
@@ -448,7 +589,7 @@ def tr_cdm_guard(repo: Path) -> str:
 
 
 def translate(repo: Path) -> str:
-    return (HEADER + PRE + tr_ipc(repo) + tr_collect(repo) + tr_full_well(repo) + tr_qe(repo) + tr_fw_sources(repo)
+    return (HEADER + PRE + tr_ipc(repo) + tr_ipc_conv(repo) + tr_collect(repo) + tr_full_well(repo) + tr_qe(repo) + tr_fw_sources(repo)
             + tr_qe_sources(repo) + tr_qe_map(repo) + tr_cdm_guard(repo))
 
 
@@ -456,6 +597,8 @@ FALLBACK = (HEADER + PRE +
             "Definition src_ipc_guard (c d a : Q) : bool := (Qltb d c) && (Qltb a c) && (Qle_bool 0 (c + d) && Qle_bool (c + d) (1 # 4)).\n"
             "Definition src_ipc_weights (c d a : Q) : kernel := {| k00 := d; k01 := (c - a); k02 := d; k10 := (c + a); "
             "k11 := (1 - (4 * (c + d))); k12 := (c + a); k20 := d; k21 := (c - a); k22 := d |}.\n"
+            "Definition src_ipc_conv_whole_frame : bool := true.\n"
+            "Definition src_ipc_conv_mean_fill : bool := true.\n"
             "Definition src_collect (pixel charge : Q) : Q := (pixel + charge).\n"
             "Definition src_full_well (c x : Q) : Q := if Qlt_le_dec c x then c else x.\n"
             "Definition src_qe_off (q p : Q) : Q := (p * q).\n"
